@@ -1,0 +1,178 @@
+//go:build verif
+
+// Contracts for /verif (build tag "verif"): //@ comment blocks and pure ghost functions only.
+package sysfs
+
+import (
+	"io/fs"
+
+	experimentalsys "github.com/tetratelabs/wazero/experimental/sys"
+	"github.com/tetratelabs/wazero/sys"
+)
+
+var (
+	_ fs.FileMode
+	_ sys.Stat_t
+)
+
+// fsMutations counts requests that can modify the file system, as seen by the wrapped
+// (inner) sys.FS / sys.File. A read-only wrapper must never make this counter move.
+func fsMutations() int { return verif_ghost_int("fsMutations") }
+
+func b2i(b bool) int {
+	if b {
+		return 1
+	}
+	return 0
+}
+
+// mutatingOpen: an open request that can create, truncate or write.
+func mutatingOpen(flag experimentalsys.Oflag) bool {
+	return flag&(experimentalsys.O_WRONLY|experimentalsys.O_RDWR|experimentalsys.O_CREAT|experimentalsys.O_TRUNC) != 0
+}
+
+func isReadFile(f experimentalsys.File) bool { _, ok := f.(*readFile); return ok }
+
+// ---- what the wrapped file system / file does (assumed: their documented meaning) ----
+//@ prop C17
+//@ iface (f experimentalsys.FS) OpenFile(path string, flag experimentalsys.Oflag, perm fs.FileMode) (experimentalsys.File, experimentalsys.Errno)
+//@   ensures fsMutations() == old(fsMutations()) + b2i(mutatingOpen(flag))
+//@   modifies ghost("fsMutations")
+//@ iface (f experimentalsys.FS) Lstat(path string) (sys.Stat_t, experimentalsys.Errno)
+//@   modifies nothing
+//@ iface (f experimentalsys.FS) Stat(path string) (sys.Stat_t, experimentalsys.Errno)
+//@   modifies nothing
+//@ iface (f experimentalsys.FS) Readlink(path string) (string, experimentalsys.Errno)
+//@   modifies nothing
+//@ iface (f experimentalsys.FS) Mkdir(path string, perm fs.FileMode) experimentalsys.Errno
+//@   ensures fsMutations() == old(fsMutations()) + 1
+//@   modifies ghost("fsMutations")
+//@ iface (f experimentalsys.FS) Chmod(path string, perm fs.FileMode) experimentalsys.Errno
+//@   ensures fsMutations() == old(fsMutations()) + 1
+//@   modifies ghost("fsMutations")
+//@ iface (f experimentalsys.FS) Rename(from, to string) experimentalsys.Errno
+//@   ensures fsMutations() == old(fsMutations()) + 1
+//@   modifies ghost("fsMutations")
+//@ iface (f experimentalsys.FS) Rmdir(path string) experimentalsys.Errno
+//@   ensures fsMutations() == old(fsMutations()) + 1
+//@   modifies ghost("fsMutations")
+//@ iface (f experimentalsys.FS) Unlink(path string) experimentalsys.Errno
+//@   ensures fsMutations() == old(fsMutations()) + 1
+//@   modifies ghost("fsMutations")
+//@ iface (f experimentalsys.FS) Link(oldPath, newPath string) experimentalsys.Errno
+//@   ensures fsMutations() == old(fsMutations()) + 1
+//@   modifies ghost("fsMutations")
+//@ iface (f experimentalsys.FS) Symlink(oldPath, linkName string) experimentalsys.Errno
+//@   ensures fsMutations() == old(fsMutations()) + 1
+//@   modifies ghost("fsMutations")
+//@ iface (f experimentalsys.FS) Utimens(path string, atim, mtim int64) experimentalsys.Errno
+//@   ensures fsMutations() == old(fsMutations()) + 1
+//@   modifies ghost("fsMutations")
+
+//@ iface (f experimentalsys.File) IsDir() (bool, experimentalsys.Errno)
+//@   modifies nothing
+//@ iface (f experimentalsys.File) Write(buf []byte) (n int, errno experimentalsys.Errno)
+//@   ensures fsMutations() == old(fsMutations()) + 1
+//@   modifies ghost("fsMutations")
+//@ iface (f experimentalsys.File) Pwrite(buf []byte, off int64) (n int, errno experimentalsys.Errno)
+//@   ensures fsMutations() == old(fsMutations()) + 1
+//@   modifies ghost("fsMutations")
+//@ iface (f experimentalsys.File) Truncate(size int64) experimentalsys.Errno
+//@   ensures fsMutations() == old(fsMutations()) + 1
+//@   modifies ghost("fsMutations")
+//@ iface (f experimentalsys.File) Sync() experimentalsys.Errno
+//@   ensures fsMutations() == old(fsMutations()) + 1
+//@   modifies ghost("fsMutations")
+//@ iface (f experimentalsys.File) Datasync() experimentalsys.Errno
+//@   ensures fsMutations() == old(fsMutations()) + 1
+//@   modifies ghost("fsMutations")
+//@ iface (f experimentalsys.File) Utimens(atim, mtim int64) experimentalsys.Errno
+//@   ensures fsMutations() == old(fsMutations()) + 1
+//@   modifies ghost("fsMutations")
+
+// ---- the read-only wrapper: no request that can modify reaches the wrapped FS (C17) ----
+//@ func (r *ReadFS) OpenFile(path string, flag experimentalsys.Oflag, perm fs.FileMode) (experimentalsys.File, experimentalsys.Errno)
+//@   requires r.FS != nil
+//@   ensures[wrapped] r1 == 0 ==> isReadFile(r0)
+//@   ensures[write-modes-refused] mutatingOpen(flag) ==> r1 != 0
+//@   modifies nothing
+//@ func (r *ReadFS) Mkdir(path string, perm fs.FileMode) experimentalsys.Errno
+//@   ensures r0 != 0
+//@   modifies nothing
+//@ func (r *ReadFS) Chmod(path string, perm fs.FileMode) experimentalsys.Errno
+//@   ensures r0 != 0
+//@   modifies nothing
+//@ func (r *ReadFS) Rename(from, to string) experimentalsys.Errno
+//@   ensures r0 != 0
+//@   modifies nothing
+//@ func (r *ReadFS) Rmdir(path string) experimentalsys.Errno
+//@   ensures r0 != 0
+//@   modifies nothing
+//@ func (r *ReadFS) Link(a, b string) experimentalsys.Errno
+//@   ensures r0 != 0
+//@   modifies nothing
+//@ func (r *ReadFS) Symlink(a, b string) experimentalsys.Errno
+//@   ensures r0 != 0
+//@   modifies nothing
+//@ func (r *ReadFS) Unlink(path string) experimentalsys.Errno
+//@   ensures r0 != 0
+//@   modifies nothing
+//@ func (r *ReadFS) Utimens(path string, atim, mtim int64) experimentalsys.Errno
+//@   ensures r0 != 0
+//@   modifies nothing
+
+//@ func (r *readFile) Write(buf []byte) (int, experimentalsys.Errno)
+//@   requires r.File != nil
+//@   ensures r1 != 0 && r0 == 0
+//@   modifies nothing
+//@ func (r *readFile) Pwrite(buf []byte, off int64) (n int, errno experimentalsys.Errno)
+//@   requires r.File != nil
+//@   ensures errno != 0 && n == 0
+//@   modifies nothing
+//@ func (r *readFile) Truncate(size int64) experimentalsys.Errno
+//@   requires r.File != nil
+//@   ensures r0 != 0
+//@   modifies nothing
+//@ func (r *readFile) Sync() experimentalsys.Errno
+//@   ensures r0 != 0
+//@   modifies nothing
+//@ func (r *readFile) Datasync() experimentalsys.Errno
+//@   ensures r0 != 0
+//@   modifies nothing
+//@ func (r *readFile) Utimens(atim, mtim int64) experimentalsys.Errno
+//@   ensures r0 != 0
+//@   modifies nothing
+
+// ---- the fs.FS adapter: path-level requests that modify are refused without reaching fs.FS ----
+//@ func (a *AdaptFS) Mkdir(path string, perm fs.FileMode) experimentalsys.Errno
+//@   ensures r0 != 0
+//@   modifies nothing
+//@ func (a *AdaptFS) Chmod(path string, perm fs.FileMode) experimentalsys.Errno
+//@   ensures r0 != 0
+//@   modifies nothing
+//@ func (a *AdaptFS) Rename(from, to string) experimentalsys.Errno
+//@   ensures r0 != 0
+//@   modifies nothing
+//@ func (a *AdaptFS) Rmdir(path string) experimentalsys.Errno
+//@   ensures r0 != 0
+//@   modifies nothing
+//@ func (a *AdaptFS) Link(x, y string) experimentalsys.Errno
+//@   ensures r0 != 0
+//@   modifies nothing
+//@ func (a *AdaptFS) Symlink(x, y string) experimentalsys.Errno
+//@   ensures r0 != 0
+//@   modifies nothing
+//@ func (a *AdaptFS) Unlink(path string) experimentalsys.Errno
+//@   ensures r0 != 0
+//@   modifies nothing
+//@ func (a *AdaptFS) Utimens(path string, atim, mtim int64) experimentalsys.Errno
+//@   ensures r0 != 0
+//@   modifies nothing
+
+// DirFS only builds the value describing the host directory (assumed; its string handling is
+// not part of any claimed property).
+//@ prop C17 C19
+//@ func DirFS(dir string) experimentalsys.FS
+//@   trusted
+//@   ensures r0 != nil
+//@   modifies nothing
